@@ -394,6 +394,25 @@ def raise_classes(chk, P):
                 why = ALLOWED_RAISES.get((fi.module.name, fi.qualname, name))
                 ok = why is not None
             is_class = isinstance(r, (ClassInfo, ExternalClass)) or type(r).__name__ == "External"
+            if not ok and name == "NotImplementedError" and fi.cls is not None:
+                # an abstract method: its whole body is the raise, and subclasses of its class define the method
+                body = [st for st in fi.node.body if not (isinstance(st, ast.Expr) and isinstance(st.value, ast.Constant))]
+                subs = [c for c in P.subclasses(fi.cls, strict=True) if fi.name in c.methods]
+                if len(body) == 1 and body[0] is node and subs:
+                    chk.ob("C16.E8", "%s is an abstract method (NotImplementedError is its whole body; defined by %s)" % (
+                        fi.qualname, ", ".join(sorted(c.name for c in subs))), True, site=fi.site(node), key="C16.E8|%s|abstract" % fi.fq)
+                    continue
+            if not ok and name == "TypeError" and fi.name.startswith("_") and fi.cls is None and _guards_emptiness(fi.node, node):
+                # a private helper refusing an empty sequence the way the library function it stands for does (functools.reduce,
+                # min/max): whether a model file can make a caller pass an empty sequence is a matter of the grammar, decided by
+                # the malformed-input rules E3-E5 through the entry points, not here
+                if fi.module.name == MODS and _empty_modifier_refused(P):
+                    chk.ob("C16.E8", "%s raises TypeError for an empty sequence of arguments: no model file reaches it (a modifier written "
+                                     "without arguments is refused by the parser as a configuration error)" % fi.qualname, True,
+                           site=fi.site(node), key="C16.E8|%s|empty-arguments" % fi.fq)
+                    continue
+                raise AnalysisError("%s line %d raises TypeError for an empty argument: whether user input can reach it is not decided "
+                                    "by the who-may-raise rule" % (fi.fq, node.lineno))
             if not ok and isinstance(target, ast.Name) and target.id in [a.arg for a in fi.node.args.args + fi.node.args.kwonlyargs]:
                 # raise <parameter>(...): the class is chosen by the callers - every call site in the package must pass a
                 # ConfigurationException subclass in that parameter
@@ -736,7 +755,7 @@ def _pmt(I, P, label, forms, marker, start, nxt):
 
 def spline_guards(chk, P):
     from .c10 import numpy_model, SolveCapture
-    fi = P.func(MODS, "spline")
+    fi = F.modifier_ref(P, "spline")
 
     def attempt(build):
         I = F.make_interp(P)
@@ -749,7 +768,7 @@ def spline_guards(chk, P):
             return None
         I.assumption_fns.append(quiet)
         forms = build(I)
-        return classify(P, outcome(lambda: I.run(fi, [ListV(forms, "list"), PyObjV(Builder())])))
+        return classify(P, outcome(lambda: fi.call(I, [ListV(forms, "list"), PyObjV(Builder())])))
 
     def chain(I, middle, mparams, starts=(0, 1, 3), n=3, first_mod=False, middle_mod=False, last_mod=False):
         nodes = None
@@ -788,12 +807,12 @@ def spline_guards(chk, P):
     for what, build, want in cases:
         got = attempt(build)
         chk.ob("C16.E11", "spline(): %s -> %s" % (what, want), got == want, site=fi.site(), found=got, expect=want, key="C16.E11|spline|%s" % what)
-    tfi = P.func(MODS, "trans")
+    tfi = F.modifier_ref(P, "trans")
 
     def tattempt(forms):
         I = F.make_interp(P)
         I.assumption_fns.append(F.hasattr_true({"deriv": True, "deriv2": True}))
-        return classify(P, outcome(lambda: I.run(tfi, [ListV(forms(I), "list"), PyObjV(Builder())])))
+        return classify(P, outcome(lambda: tfi.call(I, [ListV(forms(I), "list"), PyObjV(Builder())])))
     z = lambda I: _pfi(I, P, "as.zero", [], ">", 0, NONE)
     c = lambda I, ps=(1,): _pfi(I, P, "as.constant", list(ps), ">", 0, NONE)
     for what, forms, want in (("two arguments, second as.constant X", lambda I: [z(I), c(I)], "accepted"),
@@ -960,6 +979,44 @@ def _callee_always_raises(P, fi, func, depth):
             and last.value.func.attr in ("error", "exit") and not "log" in ast.unparse(last.value.func.value).lower():
         return True               # the helper ends in ArgumentParser.error / sys.exit: it ends the program
     return isinstance(last, ast.Expr) and isinstance(last.value, ast.Call) and _callee_always_raises(P, callee, last.value.func, depth - 1)
+
+
+_EMPTY_MOD = {}
+
+
+def _empty_modifier_refused(P):
+    """is 'A-B : NAME()' refused with a configuration error for every registered modifier NAME?"""
+    if "v" not in _EMPTY_MOD:
+        I = F.make_interp(P)
+        mr = I.instantiate(P.cls("atsim.potentials.config._modifier_registry", "Modifier_Registry"), [], {}, None)
+        names = sorted(F.registered_modifiers(I, mr, set()))
+        ok = bool(names)
+        for nm in names:
+            out = parse(P, "[Pair]\nA-B : %s()\n" % nm)
+            if out[0] == "ok":
+                o = outcome(lambda: out[3].getattr(out[4], "pair"))
+                ok = ok and classify(P, o) == "config-error"
+            else:
+                ok = ok and classify(P, out) == "config-error"
+        _EMPTY_MOD["v"] = ok
+    return _EMPTY_MOD["v"]
+
+
+def _guards_emptiness(fnode, raise_node):
+    """the raise sits directly under `if not <parameter>` / `if len(<parameter>) == 0` / an except StopIteration of next(iter(...))"""
+    params = set(a.arg for a in fnode.args.args)
+    for n in ast.walk(fnode):
+        if isinstance(n, ast.If) and raise_node in n.body:
+            t = n.test
+            if isinstance(t, ast.UnaryOp) and isinstance(t.op, ast.Not) and isinstance(t.operand, ast.Name) and t.operand.id in params:
+                return True
+            if isinstance(t, ast.Compare) and isinstance(t.left, ast.Call) and ast.unparse(t.left.func) == "len" and t.left.args \
+                    and isinstance(t.left.args[0], ast.Name) and t.left.args[0].id in params and len(t.comparators) == 1 \
+                    and isinstance(t.comparators[0], ast.Constant) and t.comparators[0].value == 0:
+                return True
+        if isinstance(n, ast.ExceptHandler) and raise_node in n.body and n.type is not None and ast.unparse(n.type) == "StopIteration":
+            return True
+    return False
 
 
 def _enclosing_try(fnode, handler):
